@@ -62,6 +62,13 @@ def chroot(c):
     return c.oldv('_chroot').val.z
 
 
+def mapped_as(c):
+    """result == posixpath.join(root, maprel(path)) and maprel(path) is empty or a clean component list"""
+    m = P.pp_maprel(c.arg('path'))
+    return z3.And(z3.Or([z3.And(g, c.result == v) for g, v in P.join_cases(Z, chroot(c), m)]),
+                  z3.Or(m == Z.lit(b''), P.clean(Z, m)))
+
+
 def two_slashes(p):
     return z3.And(z3.PrefixOf(Z.lit(b'//'), p), z3.Not(z3.PrefixOf(Z.lit(b'///'), p)))
 
@@ -80,7 +87,11 @@ map_path = Spec(
         ('inside-chroot[every-other-path]', lambda c: z3.Implies(
             z3.And(chroot_set(c), z3.Not(two_slashes(c.arg('path')))), P.inside(Z, chroot(c), c.result))),
         ('identity-without-chroot', lambda c: z3.Implies(z3.Not(chroot_set(c)), c.result == c.arg('path'))),
+        # functional form (what the callers that relate two mapped paths rely on, e.g. symlink): the local path is
+        # the root joined with the root-relative normal form of the client path
+        ('root-joined-with-normalised-path', lambda c: z3.Implies(chroot_set(c), mapped_as(c))),
     ],
+    lemmas=lambda c: [P.maprel_def(c.arg('path'))],      # definition of pp_maprel (specs/paths.py)
     trusted=P.TRUSTED)
 
 reverse_map_path = Spec(
@@ -104,7 +115,8 @@ map_path_callee = Spec(
     'C13x', 'sftp', 'SFTPServer.map_path', self_class='SFTPServer', params=dict(path='bytes'), classes=SERVER,
     returns='bytes', modifies=[],
     ensures=[('inside-chroot', lambda c: z3.Implies(chroot_set(c), P.inside(Z, chroot(c), c.result))),
-             ('identity-without-chroot', lambda c: z3.Implies(z3.Not(chroot_set(c)), c.result == c.arg('path')))])
+             ('identity-without-chroot', lambda c: z3.Implies(z3.Not(chroot_set(c)), c.result == c.arg('path'))),
+             ('root-joined-with-normalised-path', lambda c: z3.Implies(chroot_set(c), mapped_as(c)))])
 Spec.registry.remove(map_path_callee)
 
 
@@ -146,7 +158,12 @@ realpath_stub.modifies = ()
 
 
 def relpath_stub(cx):
-    return VBytes(os_relpath(cx.args[0].z, cx.kwargs['start'].z))
+    """os.path.relpath(p, start=d), assumed: the result is a relative path and - LEXICALLY, i.e. as long as no
+    component of d is a symbolic link that leads upward - joining it onto d names the same file as p"""
+    pth, start = cx.args[0].z, cx.kwargs['start'].z
+    r = os_relpath(pth, start)
+    same = [z3.Implies(g, os_realpath(v) == os_realpath(pth)) for g, v in P.join_cases(Z, start, r)]
+    return [Out(ret=VBytes(r), assume=[z3.Not(z3.PrefixOf(Z.lit(b'/'), r))] + same)]
 
 
 relpath_stub.modifies = ()
@@ -203,30 +220,42 @@ def symlink_event_stub(cx):
 symlink_event_stub.modifies = ()
 
 
+def link_location(link):
+    """the text a relative link target is resolved against: the link path without its final component (the kernel
+    starts the resolution in the directory that holds the link)"""
+    bl = P.pp_basename(link)
+    return z3.Extract(link, z3.IntVal(0), z3.Length(link) - z3.Length(bl))
+
+
 def symlink_post(c):
-    """the link is created inside the root; an absolute target is a mapped (inside) path; a relative target is
-    either the one the client sent - and then, resolved against the mapped directory of the link, it is the same
-    file as an inside path - or it was rewritten as the relative form of an inside path from that directory"""
+    """the link is created inside the root; an absolute target is a mapped (inside) path; a relative target,
+    RESOLVED AGAINST THE DIRECTORY THAT HOLDS THE LINK (the location of map_path(newpath), for every newpath byte
+    string - trailing slashes, '//' and '.' components included), names the same file as a path inside the root"""
     evs = c.events('os.symlink')
     if len(evs) != 1:
         return z3.BoolVal(False)
     target, link = [a.z for a in evs[0][1]]
     root = chroot(c)
-    maps = c.calls('self.map_path')
-    linkdir = P.pp_dirname(c.arg('newpath'))
-    rel_alts = []
-    for q in maps:
-        for d in maps:
-            dj = z3.Or([z3.And(g, os_realpath(q['ret'].z) == os_realpath(v))
-                        for g, v in P.join_cases(Z, d['ret'].z, target)])
-            rel_alts.append(z3.And(d['args'][0].z == linkdir, P.inside(Z, root, q['ret'].z), z3.Or(
-                z3.And(target == c.arg('oldpath'), dj),
-                target == os_relpath(q['ret'].z, d['ret'].z))))
+    resolved = z3.Concat(link_location(link), target)
+    rel_alts = [z3.And(P.inside(Z, root, q['ret'].z), os_realpath(q['ret'].z) == os_realpath(resolved))
+                for q in c.calls('self.map_path')]
     absolute = z3.PrefixOf(Z.lit(b'/'), c.arg('oldpath'))
     return z3.Implies(chroot_set(c), z3.And(
         P.inside(Z, root, link),
         z3.Implies(absolute, P.inside(Z, root, target)),
-        z3.Implies(z3.Not(absolute), z3.Or(rel_alts) if rel_alts else z3.BoolVal(False))))
+        z3.Implies(z3.Not(absolute), z3.And(z3.Not(z3.PrefixOf(Z.lit(b'/'), target)),
+                                            z3.Or(rel_alts) if rel_alts else z3.BoolVal(False)))))
+
+
+def symlink_lemmas(c):
+    """instances of assumed contracts of the externals (validated in extra_checks): the maprel algebra for the
+    client's newpath, and basename of the created link path"""
+    evs = c.events('os.symlink')
+    out = [P.maprel_algebra(c.arg('newpath'))]
+    if len(evs) == 1:
+        link = evs[0][1][1].z
+        out.append(P.basename_contract(Z, link, P.pp_basename(link)))
+    return out
 
 
 symlink = Spec(
@@ -235,9 +264,12 @@ symlink = Spec(
     stubs=dict(SERVER_STUBS, **{'os.path.relpath': relpath_stub, 'os.symlink': symlink_event_stub}),
     modifies=[],
     ensures=[('link-and-target-stay-inside-root', symlink_post)],
+    lemmas=symlink_lemmas,
     raises={'OSError': True},
     trusted=P.TRUSTED + ['os.path.realpath / os.path.relpath are uninterpreted functions of their arguments (file '
-                         'system state fixed during one request)'])
+                         'system state fixed during one request); relpath is assumed lexically correct',
+                         'assumed algebra of the externals: maprel(dirname(normpath(p))) is the directory part of '
+                         'maprel(p) (bounded check in extra_checks)'])
 symlink.no_replay = True
 
 
